@@ -281,10 +281,24 @@ fn sweep_design_sizes(quick: bool) -> Vec<i32> {
     let ten = 10 << 20;
     let s1728 = (17 << 20) + ((28i64 << 20) / 100) as i32;
     let big = i32::MAX - 5; // 2047.99999 pt: z needs four halvings
-    if quick {
-        return vec![ten, s1728, big];
+    let mut v = vec![1 << 20, (1 << 20) + 16, 5 << 20, ten, 12 << 20, s1728, (127 << 20) + 1038090, (128 << 20) - 16, 128 << 20, (255 << 20) + 999, (1000 << 20) + 123456, big];
+    if !quick {
+        // one size just below, at and above every power of two, sizes with every low nibble pattern, odd z
+        v.extend([(10 << 20) + 15, (128 << 20) + 32, 256 << 20, (300 << 20) + 7777, 512 << 20, 1024 << 20, (2047 << 20) + 1038090, i32::MAX]);
+        for k in 20..=30 {
+            for d in [-16i32, 0, 16, 48] {
+                v.push((1i32 << k) + d);
+            }
+            v.push((1i32 << k) + (1 << (k - 1)) + 16 * 12345 % (1 << (k - 2)));
+            v.push((1i32 << k) + 0x3_5a70 % (1 << k));
+        }
+        let mut m: i64 = (1 << 20) + 0x1_2340;
+        while m < 1 << 31 {
+            v.push(m as i32);
+            m = m * 21 / 20 + 16;
+        }
     }
-    let mut v = vec![1 << 20, (1 << 20) + 16, 5 << 20, ten, (10 << 20) + 15, 12 << 20, s1728, (127 << 20) + 1038090, (128 << 20) - 16, 128 << 20, (128 << 20) + 32, (255 << 20) + 999, 256 << 20, (300 << 20) + 7777, 512 << 20, (1000 << 20) + 123456, 1024 << 20, (2047 << 20) + 1038090, big, i32::MAX];
+    v.retain(|x| *x >= 1 << 20);
     v.sort();
     v.dedup();
     v
@@ -804,13 +818,18 @@ fn main() {
             }
         });
         let limits = [15u8, 63, 255];
-        let sizes: Vec<u64> = if ctx.quick() { vec![256, 257, 270, 299, 300] } else { (256..=300).collect() };
-        let sz = &sizes;
-        ctx.family("compress-large", &format!("{SHAPES} deterministic families (progressions, clusters, scattered, powers of two, parabola ...) of n values for n in {} x limits 15, 63, 255", if ctx.quick() { "{256,257,270,299,300}".to_string() } else { "256..=300".to_string() }), SHAPES * sz.len() as u64 * 3, |i, acc| {
-            let d = vcore::digits(i, &[SHAPES, sz.len() as u64, 3]);
-            let values = large_family(d[0], sz[d[1] as usize]);
+        ctx.family("compress-large", &format!("{SHAPES} deterministic families (progressions, clusters, scattered, powers of two, parabola ...) of n values for every n in 256..=300 x limits 15, 63, 255"), SHAPES * 45 * 3, |i, acc| {
+            let d = vcore::digits(i, &[SHAPES, 45, 3]);
+            let values = large_family(d[0], 256 + d[1]);
             let limit = limits[d[2] as usize];
-            check_compress(i, &values, limit, acc, &|| json!({"kind": "compress-large", "shape": d[0], "n": sz[d[1] as usize], "limit": limit}));
+            check_compress(i, &values, limit, acc, &|| json!({"kind": "compress-large", "shape": d[0], "n": 256 + d[1], "limit": limit}));
+        });
+        let sizes: &[u64] = if ctx.quick() { &[300] } else { &[256, 277, 300] };
+        ctx.family("compress-large-all-limits", &format!("the same {SHAPES} families with n in {sizes:?} x every limit 1..=255"), SHAPES * sizes.len() as u64 * 255, |i, acc| {
+            let d = vcore::digits(i, &[SHAPES, sizes.len() as u64, 255]);
+            let values = large_family(d[0], sizes[d[1] as usize]);
+            let limit = d[2] as u8 + 1;
+            check_compress(i, &values, limit, acc, &|| json!({"kind": "compress-large", "shape": d[0], "n": sizes[d[1] as usize], "limit": limit}));
         });
     }
     // ---- part 4
